@@ -6,7 +6,8 @@ From FB Require Import Sem.Base Model.Fb Model.Deframers Model.Adapters Model.Se
 Open Scope Z_scope.
 
 Definition plen_sel (SIZE kind : Z) (line : list Z) : Z :=
-  if kind =? 0 then hd 0 line else if kind =? 1 then SIZE + 1 else if kind =? 2 then 0 else zlen line.
+  if kind =? 0 then hd 0 line else if kind =? 1 then SIZE + 1 else if kind =? 2 then 0 else if kind =? 3 then zlen line
+  else (kind - 4) + hd 0 line.      (* kind 4 + OFFSET: a header byte on top of a large base length *)
 Definition resp_std (line payload : list Z) : list Z := [79; 75; zlen payload mod 256; 10].
 Definition enc_dstat (d : dstat) : list Z :=
   match d with DrOk => [0] | DrErr k => [1; enc_ekind k] | DrPanic => [PANIC] | DrFuel => [-7] end.
